@@ -200,6 +200,30 @@ func c15Pair(x *explore.Ctx, dc, uc bool, bufs int, tier string) {
 		sender, senderNC, recv = p.server, p.snc, p.client
 	}
 	_ = senderNC
+	// where in the message sequence the setting calls happen (so that a compressed message can be
+	// followed directly by an uncompressed one and vice versa)
+	togglePos := 0
+	if n > 0 && !midMessage {
+		togglePos = x.Pick(3, "toggle-position")
+	}
+	// how the receiver consumes: every message completely / the first message of each round
+	// abandoned right after NextReader / abandoned after one byte (the next message must still be
+	// decoded according to its own RSV1 bit)
+	recvProg := x.Pick(3, "receiver-program")
+	recvOne := func(first bool, payload []byte, what string, names []string) {
+		if first && recvProg > 0 {
+			t, r, err := recv.NextReader()
+			x.Check(err == nil && t == websocket.BinaryMessage, key("undecodable-"+what), "message written after %v: NextReader: type %d, %v", names, t, err)
+			if err == nil && recvProg == 2 && len(payload) > 0 {
+				var one [1]byte
+				k, rerr := r.Read(one[:])
+				x.Check(k == 1 && one[0] == payload[0], key("undecodable-"+what), "message written after %v: first byte read as %q (%v), want %q", names, one[:k], rerr, payload[:1])
+			}
+			return
+		}
+		t, got, err := recv.ReadMessage()
+		x.Check(err == nil && t == websocket.BinaryMessage && bytes.Equal(got, payload), key("undecodable-"+what), "message (%s) written after %v is not decodable by the peer: err=%v got %s", what, names, err, short(got))
+	}
 	for round := 0; round < 2; round++ {
 		var open io.WriteCloser
 		if round == 0 && midMessage {
@@ -209,13 +233,19 @@ func c15Pair(x *explore.Ctx, dc, uc bool, bufs int, tier string) {
 			}
 			open = w
 		}
-		for i := 0; i < n; i++ {
-			if round == 0 {
-				op := ops[x.Pick(len(ops), fmt.Sprintf("toggle%d", i))]
-				names = append(names, op.name)
-				op.do(sender)
+		toggle := func() {
+			for i := 0; i < n; i++ {
+				if round == 0 {
+					op := ops[x.Pick(len(ops), fmt.Sprintf("toggle%d", i))]
+					names = append(names, op.name)
+					op.do(sender)
+				}
 			}
 		}
+		if togglePos == 0 {
+			toggle()
+		}
+		first := true
 		if open != nil {
 			payload := bytes.Repeat([]byte("open-writer "), 30)
 			_, err1 := open.Write(payload)
@@ -224,16 +254,19 @@ func c15Pair(x *explore.Ctx, dc, uc bool, bufs int, tier string) {
 				x.Failf(key("write-failed"), "message opened before %v failed: %v / %v", names, err1, err2)
 			}
 			p.pump()
-			t, got, err := recv.ReadMessage()
-			x.Check(err == nil && t == websocket.BinaryMessage && bytes.Equal(got, payload), key("undecodable-open-writer-toggle"), "message whose writer was open during %v is not decodable by the peer: err=%v got %s", names, err, short(got))
+			recvOne(first, payload, "open-writer-toggle", names)
+			first = false
 		}
 		for mi, payload := range [][]byte{bytes.Repeat([]byte("abcabc"), 50), Pattern(3, 130), {}} {
+			if mi > 0 && mi == togglePos {
+				toggle()
+			}
 			if err := sender.WriteMessage(websocket.BinaryMessage, payload); err != nil {
 				x.Failf(key("write-failed"), "WriteMessage after %v failed: %v", names, err)
 			}
 			p.pump()
-			t, got, err := recv.ReadMessage()
-			x.Check(err == nil && t == websocket.BinaryMessage && bytes.Equal(got, payload), key("undecodable-after-toggle"), "message %d written after %v is not decodable by the peer: err=%v got %s", mi, names, err, short(got))
+			recvOne(first || (recvProg > 0 && mi == togglePos-1), payload, "after-toggle", names)
+			first = false
 		}
 		// and one message the other way
 		if err := recv.WriteMessage(websocket.TextMessage, []byte("pong-direction")); err != nil {
@@ -248,7 +281,7 @@ func c15Pair(x *explore.Ctx, dc, uc bool, bufs int, tier string) {
 	sComp := observeCompresses(x, p.server, p.snc, true)
 	cAcc, cErr := observeAccepts(p.client, p.cnc, false)
 	sAcc, sErr := observeAccepts(p.server, p.snc, true)
-	x.Obs("toggles=%v ann=%v clientAccepts=%v serverAccepts=%v clientCompresses=%v serverCompresses=%v", names, ann, cAcc, sAcc, cComp, sComp)
+	x.Obs("toggles=%v@%d mid=%v recv=%d side=%d ann=%v clientAccepts=%v serverAccepts=%v clientCompresses=%v serverCompresses=%v", names, togglePos, midMessage, recvProg, side, ann, cAcc, sAcc, cComp, sComp)
 	x.Check(cAcc == ann && sAcc == ann, key("accept-disagreement"), "101 announced=%v but client accepts compressed=%v (%v), server accepts compressed=%v (%v)", ann, cAcc, cErr, sAcc, sErr)
 	x.Check((!cComp || ann) && (!sComp || ann), key("compresses-unannounced"), "101 announced=%v but client sets RSV1=%v, server sets RSV1=%v", ann, cComp, sComp)
 	x.Check(cComp == sComp, key("compress-disagreement"), "client compresses=%v, server compresses=%v", cComp, sComp)
